@@ -30,6 +30,10 @@ def judge_doc(doc, cases, variants):
         def fresh():
             state["data"] = absdoc.load(text)
             state["loc"] = absdoc.Locator(state["data"])
+            # ONE Processor answers every query on this document (a query is a function of document and path in the
+            # specification: nothing an earlier query did may show); C02 / C15 use a fresh Processor per query
+            from yamlpath import Processor
+            state["proc"] = Processor(absdoc.LOG, state["data"])
             if not absdoc.same_table(state["loc"].doc, doc):
                 raise core.MachineryError("concretisation does not reload to the abstract document: %r" % text)
 
@@ -46,7 +50,7 @@ def judge_doc(doc, cases, variants):
                 if mode == "opt" and (exp_out != "ok" or c["dead"]):
                     continue      # optional-match is only comparable when no branch would need creating
                 data, loc = state["data"], state["loc"]
-                r = queryobs.run_query(data, loc, ptxt, mode)
+                r = queryobs.run_query(data, loc, ptxt, mode, proc=state["proc"])
                 label = "%s:%s" % (mode, "sl" if ptxt is c["sl"] and c["sl"] != c["dot"] else "dot")
                 if r["out"].startswith("crash"):
                     problems.append(("crash", label, r["msg"]))
